@@ -1182,6 +1182,11 @@ class Srv:
                         nt = h.events_in(b.reachable_from(ent), K("notify"))
                         if not nt:
                             res.bad("R9.cancel", inst, "the running MPC task is not signalled", where(b, ent))
+                        elif any(e.extra == "notify_waiters" for e in nt):
+                            # tokio: notify_waiters() wakes only tasks that are already waiting and stores no permit;
+                            # the MPC task may not have reached (or been polled into) its `notified()` yet
+                            res.bad("R9.cancel", inst, "the MPC task is signalled with notify_waiters(): a task that has not registered its wait yet (cancel right after the spawn) never sees the signal, the run continues and cancel waits for its natural end", where(b, ent),
+                                    key="R9.cancel|cancel×Executing|notify_waiters")
                         else:
                             res.ok("R9.cancel", inst, where(b, ent), "signals the MPC task, which sends the notification")
                 else:
@@ -1253,6 +1258,9 @@ class Srv:
                 back = [e for e in nf if e.detail in c_wait]
                 if not (c_sig & t_wait):
                     res.bad("R9.cancel", "task|handshake", "cancel() signals %s but the MPC task waits for %s: the task is never told to stop" % (sorted(c_sig), sorted(t_wait)), fl(b.span))
+                elif any(e.extra == "notify_waiters" for e in back):
+                    res.bad("R9.cancel", "task|handshake", "the MPC task signals its completion with notify_waiters(): a cancel() that has not reached its `notified().await` yet never sees it and waits forever", fl(back[0].sp),
+                            key="R9.cancel|task|handshake|notify_waiters")
                 elif not back:
                     res.bad("R9.cancel", "task|handshake", "cancel() waits for %s but the MPC task only signals %s: cancel never returns" % (sorted(c_wait), sorted(t_sig)), fl(b.span))
                 elif b.reachable_from(0, frozenset(e.block for e in back)) & rets:
